@@ -24,7 +24,7 @@
 //! ```
 use std::collections::BTreeMap;
 
-use aes::cipher::generic_array::{typenum::U8, GenericArray};
+use aes::cipher::generic_array::GenericArray;
 use coset::iana::Algorithm;
 use p256::EncodedPoint;
 use serde::{Deserialize, Serialize};
@@ -216,9 +216,16 @@ impl TryFrom<CoseKey> for EncodedPoint {
                 x,
                 y,
             } => {
+                // A P-256 coordinate is exactly 32 bytes; `from_slice` panics otherwise.
+                if x.len() != 32 {
+                    return Err(Error::InvalidCoseKey);
+                }
                 let x_generic_array = GenericArray::from_slice(x.as_ref());
                 match y {
                     EC2Y::Value(y) => {
+                        if y.len() != 32 {
+                            return Err(Error::InvalidCoseKey);
+                        }
                         let y_generic_array = GenericArray::from_slice(y.as_ref());
 
                         Ok(EncodedPoint::from_affine_coordinates(
@@ -241,13 +248,8 @@ impl TryFrom<CoseKey> for EncodedPoint {
                     }
                 }
             }
-            CoseKey::OKP { crv: _, x } => {
-                let x_generic_array: GenericArray<_, U8> =
-                    GenericArray::clone_from_slice(&x[0..42]);
-                let encoded = EncodedPoint::from_bytes(x_generic_array)
-                    .map_err(|_e| Error::InvalidCoseKey)?;
-                Ok(encoded)
-            }
+            // An octet key pair is not a point on P-256.
+            CoseKey::OKP { .. } => Err(Error::InvalidCoseKey),
             _ => Err(Error::InvalidCoseKey),
         }
     }
